@@ -43,7 +43,7 @@ Dry-runs on a scratch copy (VERIF_REPO=/var/tmp/mC16, ./check C17 quick), all co
  MC  interpreter.go scope.Freeze skips pyList values                               RED  class export-not-frozen (new), concrete package set
  MD  objects.go  pyFrozenList.IndexAssign delegates to the inner list              RED  VIOLATION violation-frozen-container-accepts-assignment.json (concrete package set, found by the
                                                                                         assignment probe added after the first dry-run, which was red through the correspondence only); 20 model disagreements
- R3  builtins.go sorted/reversed back to l[:] (after the repairs 95d3a82, f4a26c7)   RED  C17_toplevel_partial no longer checks (facts sortedArg/reversedArg flip); no concrete package set at quick
+ R3  builtins.go sorted/reversed back to l[:] (after the repairs 95d3a82, b818e89)   RED  C17_toplevel_partial no longer checks (facts sortedArg/reversedArg flip); no concrete package set at quick
  ME  interpreter.go Subinclude: rename local `locals`                              GREEN (harmless)
  MA  objects.go  pyList.Freeze returns the frozen copy (the fix)                   RED as designed: C17_witness_freeze_keeps_elements / C17_freeze_today_not_deep no longer check
 """
